@@ -23,7 +23,8 @@ def main():
         clip = lambda s, n: (s[: n - 1] + "…") if len(s) > n else s
         esc = lambda s: s.replace("|", "\\|").replace("\n", " ")
         rows.append(f"| {os.path.basename(d)} | {m.get('property')} | {esc(clip(m.get('summary', ''), 230))} | "
-                    f"{esc(clip(str(m.get('needs', '')), 200))} | {'; '.join(caught) or 'not run'} | "
+                    f"{esc(clip(str(m.get('needs', '')), 200))} | "
+                    f"{'; '.join(caught) or ('superseded (caught by C06 quick when it was made): ' + esc(clip(m['superseded'], 160)) if m.get('superseded') else 'not run')} | "
                     f"{esc(', '.join('`' + k + '`' for k in keys[:3]))} |")
     table = "\n".join(rows)
     p = os.path.join(VERIF, "DESIGN.md")
